@@ -79,11 +79,12 @@ def shape_of_struct(d):
 
 def extra_shape(line):
     """extra struct member lines: 'X int32', 'y int32 `frugal:"9,default,i32"`', 'Leaf' (embedded)"""
-    m = re.match(r'^\s*(\w+)(?:\s+([^`]+?))?\s*(?:`(.*)`)?\s*$', line)
+    m = re.match(r'^\s*(\*?\w+)(?:\s+([^`]+?))?\s*(?:`(.*)`)?\s*$', line)
     name, ty, tag = m.group(1), m.group(2), m.group(3) or ""
     anon = ty is None
     if anon:
         ty = name
+        name = name.lstrip("*")
     ftag, ttag = ABSENT, ABSENT
     mm = re.search(r'frugal:"([^"]*)"', tag)
     if mm:
